@@ -3,3 +3,4 @@ pub mod chainsim;
 pub mod kv06;
 pub mod pfx07;
 pub mod stakesim;
+pub mod buildsim;
